@@ -25,6 +25,15 @@ let run (f : string list) : string * string =
   | ["cls_default"] ->
     let r = default_reply in
     (b2s (is_positive r) ^ b2s (is_negative r) ^ b2s (is_intermediate r), "000")
+  | "aggval" :: _how :: rest ->
+    (* an aggregate is a value: after copy / move construction or assignment it is the aggregate of the NEW members *)
+    let rec after_bar = function [] -> [] | "|" :: t -> t | _ :: t -> after_bar t in
+    let l = take_pairs (after_bar rest) in
+    let rs = append_all l in
+    let show pos txt mem =
+      b2s pos ^ " " ^ hex_of_bytes txt ^ " " ^
+      String.concat "," (List.map (fun r -> string_of_n r.code ^ ":" ^ hex_of_bytes r.text) mem) in
+    (show rs.agg_positive rs.agg_text rs.members, show (spec_positive l) (spec_text l) l)
   | "agg" :: rest ->
     let l = take_pairs rest in
     let rs = append_all l in
